@@ -92,8 +92,17 @@ func (e *C10) one(ctx *core.Ctx) {
 		}[r.Intn(2)])
 	}
 	affMode := r.Intn(2) == 0
-	affKind := r.Intn(7)
+	affKind := r.Intn(8)
 	switch affKind {
+	case 7:
+		// the template lists the nodes it wants by name, one required term per node (an In requirement on
+		// metadata.name accepts a single value), the node the pod is created for among them
+		names := [][]string{{"n0", "n1", "n2"}, {"n1", "n0"}, {"n2", "n1"}}[r.Intn(3)]
+		var terms []corev1.NodeSelectorTerm
+		for _, nm := range names {
+			terms = append(terms, corev1.NodeSelectorTerm{MatchFields: []corev1.NodeSelectorRequirement{{Key: "metadata.name", Operator: corev1.NodeSelectorOpIn, Values: []string{nm}}}})
+		}
+		tplt.Spec.Affinity = &corev1.Affinity{NodeAffinity: &corev1.NodeAffinity{RequiredDuringSchedulingIgnoredDuringExecution: &corev1.NodeSelector{NodeSelectorTerms: terms}}}
 	case 1:
 		tplt.Spec.Affinity = &corev1.Affinity{}
 	case 2:
